@@ -1,4 +1,4 @@
-import ZV.Model.C06
+import ZV.Model.C06Multi
 /-! line protocol for C06:
       `c06 cert <der-hex> <canon:0|1> <verified:0|1|u>`
     output `err` or
@@ -8,11 +8,41 @@ import ZV.Model.C06
     parsed TBS reproduces RawTBSCertificate); `verified` is the outcome of verifying the certificate's signature
     under its own key (u = the harness has no independent verifier for that algorithm).
       `c06 wrap <prefix-hex|-> <der-hex> <suffix-hex|-> <class>`
-    output `err` or `ok raw=<length of Raw> md5=… sha1=… sha256=…` for the input prefix ‖ der ‖ suffix. -/
+    output `err` or `ok raw=<length of Raw> md5=… sha1=… sha256=…` for the input prefix ‖ der ‖ suffix.
+      `c06 bundle <class> <flags> <der1-hex> … <derk-hex>`
+    `ParseCertificates` on der1 ‖ … ‖ derk; flags = 2k characters, canon and verified of certificate i at 2i, 2i+1.
+    output `err` or `ok n=<number of certificates>` followed by `;` + the `cert` summary (without the leading `ok `)
+    of every certificate returned. -/
 namespace ZV.C06
 open ZV ZV.Der
 
 def showSpan (off len : Nat) : String := toString off ++ "+" ++ toString len
+
+def showCert (c : Cert) (canon ver : String) : String :=
+  let m := c.meta
+  let ss := if ver == "u" then "u" else if selfSigned m (ver == "1") then "1" else "0"
+  "v=" ++ toString m.version
+    ++ " tbs=" ++ showSpan c.offTbs c.rawTBS.length
+    ++ " iss=" ++ showSpan c.offIssuer c.rawIssuer.length
+    ++ " sub=" ++ showSpan c.offSubject c.rawSubject.length
+    ++ " spki=" ++ showSpan c.offSPKI c.rawSPKI.length
+    ++ " md5=" ++ toHex m.fpMD5 ++ " sha1=" ++ toHex m.fpSHA1 ++ " sha256=" ++ toHex m.fpSHA256
+    ++ " spkifp=" ++ toHex m.spkiFp ++ " tbsfp=" ++ toHex m.tbsFp ++ " spkisub=" ++ toHex m.spkiSubjectFp
+    ++ " noct=" ++ (if canon == "1" then toHex m.noCTFp else "-")
+    ++ " eq=" ++ (if m.issuerEqSubject then "1" else "0") ++ " ss=" ++ ss
+
+/-- certificates paired with their (canon, verified) flag characters; missing flags print as `?` -/
+def showCerts : List Cert → List Char → String
+  | [], _ => ""
+  | c :: cs, a :: b :: fl => ";" ++ showCert c (String.singleton a) (String.singleton b) ++ showCerts cs fl
+  | c :: cs, _ => ";" ++ showCert c "?" "?" ++ showCerts cs []
+
+def allHex : List String → Option (List Bytes)
+  | [] => some []
+  | h :: t =>
+    match ofHex h, allHex t with
+    | some b, some bs => some (b :: bs)
+    | _, _ => none
 
 def handle (args : List String) : String :=
   match args with
@@ -21,18 +51,15 @@ def handle (args : List String) : String :=
     | none => "bad-hex"
     | some bs =>
       match parseCert bs with
-      | .ok c =>
-        let m := c.meta
-        let ss := if ver == "u" then "u" else if selfSigned m (ver == "1") then "1" else "0"
-        "ok v=" ++ toString m.version
-          ++ " tbs=" ++ showSpan c.offTbs c.rawTBS.length
-          ++ " iss=" ++ showSpan c.offIssuer c.rawIssuer.length
-          ++ " sub=" ++ showSpan c.offSubject c.rawSubject.length
-          ++ " spki=" ++ showSpan c.offSPKI c.rawSPKI.length
-          ++ " md5=" ++ toHex m.fpMD5 ++ " sha1=" ++ toHex m.fpSHA1 ++ " sha256=" ++ toHex m.fpSHA256
-          ++ " spkifp=" ++ toHex m.spkiFp ++ " tbsfp=" ++ toHex m.tbsFp ++ " spkisub=" ++ toHex m.spkiSubjectFp
-          ++ " noct=" ++ (if canon == "1" then toHex m.noCTFp else "-")
-          ++ " eq=" ++ (if m.issuerEqSubject then "1" else "0") ++ " ss=" ++ ss
+      | .ok c => "ok " ++ showCert c canon ver
+      | .err => "err"
+      | .panic => "panic"
+  | "bundle" :: _class :: flags :: hexes =>
+    match allHex hexes with
+    | none => "bad-hex"
+    | some ds =>
+      match parseCerts ds.flatten with
+      | .ok cs => "ok n=" ++ toString cs.length ++ showCerts cs flags.toList
       | .err => "err"
       | .panic => "panic"
   | ["wrap", pre, der, suf, _class] =>
